@@ -66,7 +66,7 @@ def gen_patterns(rng, dirs, files):
     pats = []
     all_dirnames = sorted({c for d in dirs for c in d.split("/") if c})
     for _ in range(rng.randint(0, 4)):
-        form = rng.choice(["dir/", "*.ext", "exact", "dir/**", "**/*_gen.py", "charclass", "question"])
+        form = rng.choice(["dir/", "*.ext", "exact", "dir/**", "**/*_gen.py", "charclass", "question", "**/dir/"])
         if form == "dir/" and all_dirnames:
             pats.append(rng.choice(all_dirnames + ["lib", "gen", "nonexistent"]) + "/")
         elif form == "*.ext":
@@ -79,6 +79,9 @@ def gen_patterns(rng, dirs, files):
                 pats.append(rng.choice(tops) + "/**")
         elif form == "**/*_gen.py":
             pats.append("**/*_gen.py")
+        elif form == "**/dir/" and all_dirnames:
+            # docs/configuration.md: "**/node_modules/", "**/dist/" - the directory wherever it is, the project root included
+            pats.append("**/" + rng.choice(all_dirnames) + "/")
         elif form in ("charclass", "question") and files:
             # the remaining glob constructs, as the ONLY construct of the pattern: a character class / a one-character wildcard inside the file name of an exact path
             f = rng.choice(sorted(files))
@@ -98,6 +101,9 @@ def ref_ignored(path: str, patterns) -> bool:
         if p.endswith("/**"):
             d = p[:-3]
             if path.startswith(d + "/"):
+                return True
+        elif p.startswith("**/") and p.endswith("/") and "/" not in p[3:-1]:
+            if p[3:-1] in parts[:-1]:
                 return True
         elif p.endswith("/"):
             d = p[:-1]
@@ -155,7 +161,8 @@ def exec_case(case):
     extra = {}
     if case["source"] in ("thailintignore", "both"):
         pats = case["patterns"] if case["source"] == "thailintignore" else case["patterns"][::2]
-        extra[".thailintignore"] = "# generated\n" + "\n".join(pats) + "\n"
+        # (sometimes saved with a byte order mark by an editor, and then the FIRST line is a pattern)
+        extra[".thailintignore"] = ("\ufeff" + "\n".join(pats) + "\n") if case.get("bom") else "# generated\n" + "\n".join(pats) + "\n"
     if case["source"] in ("yaml", "both"):
         import yaml
         pats = case["patterns"] if case["source"] == "yaml" else case["patterns"][1::2]
@@ -181,11 +188,18 @@ def exec_case(case):
     res = {}
     flags = [] if case["recursive"] else ["--no-recursive"]
     fp_rules = ["--rules", '{"global_deny": [".*"]}'] if not post and not pre else []
-    for name, argv in (("placement", pre + ["file-placement", "--format", "json"] + fp_rules + post + flags + case["targets"]),
-                       ("magic", pre + ["magic-numbers", "--format", "json"] + post + flags + case["targets"])):
+    targets = case["targets"]
+    if case.get("dotdot"):
+        targets = [os.path.join(d, case["dotdot"], *([".."] * (case["dotdot"].count("/") + 1)), t) for t in targets]
+
+    def rel(p_):
+        p_ = os.path.normpath(p_)
+        return os.path.relpath(p_, d) if os.path.isabs(p_) and (p_ + "/").startswith(d + "/") else p_
+    for name, argv in (("placement", pre + ["file-placement", "--format", "json"] + fp_rules + post + flags + targets),
+                       ("magic", pre + ["magic-numbers", "--format", "json"] + post + flags + targets)):
         r = runner.cli(argv, d)
         vs = r.violations()
-        res[name] = {"exit": r.exit, "files": None if vs is None else sorted({os.path.normpath(v["file_path"]) for v in vs}), "err": r.err[-300:], "argv": argv}
+        res[name] = {"exit": r.exit, "files": None if vs is None else sorted({rel(v["file_path"]) for v in vs}), "err": r.err[-300:], "argv": argv}
     return {"res": res, "extra": extra}
 
 
@@ -278,7 +292,9 @@ def run(ctx):
             dirs_t = [t for t in targets if t in subs]
             targets = [t for t in targets if not any(t != dt and t.startswith(dt + "/") for dt in dirs_t)]
         cases.append({"i": i, "dirs": dirs, "files": files, "patterns": pats, "source": source, "targets": targets,
-                      "recursive": rng.random() < 0.8, "kind": kind})
+                      "recursive": rng.random() < 0.8, "kind": kind, "bom": rng.random() < 0.25,
+                      # targets spelled absolutely THROUGH a sub-directory and back (/abs/proj/<sub>/../<target>)
+                      "dotdot": rng.choice(subs) if subs and rng.random() < 0.15 else None})
     outs = runner.pmap(exec_case, cases, timeout=600)
     cfgnames = {".thailintignore", ".thailint.yaml", ".thailint.json", "pyproject.toml", "custom_rules.yaml"}
     for case, o in zip(cases, outs):
